@@ -145,7 +145,7 @@ def gen_f_driver(cases, nvals, with_class):
                                  for p in c["params"][:nsup] if frow(p, tt)[0].get("arg") is not None)
                 if fx.get("ptr"):
                     blk.append("    rv => %s(%s)" % (name, args))
-                elif rr["ty"] != "none":
+                elif rr["ty"] != "none" or rr.get("returns"):
                     blk.append("    rv = %s(%s)" % (name, args))
                 else:
                     blk.append("    call %s(%s)" % (name, args))
